@@ -49,6 +49,9 @@ LAYOUT = {
     'scalar-then-msg': [('names', 'scalar'), ('items', 'msg')],
     'msg-then-scalar': [('items', 'msg'), ('names', 'scalar')],
     'single-then-msg': [('single', 'single'), ('items', 'msg')],
+    # declared first, numbered last: "first" is the order of the fields in the message (the descriptor order)
+    'msg#9-then-scalar#1': [('items', 'msg', 9), ('names', 'scalar', 1)],
+    'scalar#8-then-map#2-then-msg#1': [('names', 'scalar', 8), ('index', 'map', 2), ('items', 'msg', 1)],
 }
 ITEM_LOC = {'same': Q('Item'), 'other': Q('OtherItem')}
 
@@ -64,7 +67,7 @@ def expected_paged(c):
     ok_size = SIZE[c['sz']][1]
     if ok_size is None:
         return None
-    has_rep = any(k != 'single' for _, k in LAYOUT[c['lay']])
+    has_rep = any(x[1] != 'single' for x in LAYOUT[c['lay']])
     return bool(c['pt'] == 'string' and c['nt'] == 'string' and ok_size and has_rep)
 
 
@@ -87,7 +90,10 @@ def build_classification(group):
         msgs.append(message(rq, fs))
         rf, nested, n = [], [], 1
         first_rep = None
-        for fname, kind in LAYOUT[lay]:
+        for ent in LAYOUT[lay]:
+            fname, kind = ent[:2]
+            if len(ent) > 2:
+                n = ent[2]
             if kind == 'single':
                 rf.append(field(fname, n, ITEM_LOC[loc]))
             elif kind == 'msg':
@@ -101,13 +107,13 @@ def build_classification(group):
                 first_rep = (fname, kind)
             n += 1
         if NEXT_TOKEN[nt]:
-            rf.append(field('next_page_token', n, NEXT_TOKEN[nt]))
+            rf.append(field('next_page_token', max([f_.number for f_ in rf] + [0]) + 1, NEXT_TOKEN[nt]))
         msgs.append(message(rs, rf, nested=nested))
         meths.append(method(f'List{i}', Q(rq), Q(rs)))
         c = dict(pt=pt, sz=sz, nt=nt, lay=lay, loc=loc)
         cells.append(dict(id=f'{pt}/{sz}/{nt}/{lay}/{loc}', rpc=f'List{i}', py=f'list{i}', req=Q(rq), resp=Q(rs),
                           expected=expected_paged(c), first_rep=first_rep,
-                          layout=LAYOUT[lay], item=ITEM_LOC[loc]))
+                          layout=[list(x[:2]) for x in LAYOUT[lay]], item=ITEM_LOC[loc]))
     main = file('acme/pg/v1/svc.proto', P, messages=msgs, services=[service('Pg', meths)])
     std = desc.std_dep_names()
     other.dependency.extend(std)
@@ -240,7 +246,13 @@ def run(ctx, only=None):
                 ctx.violation(f'hist|{job["_item_kind"]}|{job["_client"]}|{f["kind"]}',
                               f'{job["id"]} history={f["history"]} mode={f["mode"]} at page {f["page"]}: {f["kind"]}: {f["detail"]}',
                               dict(kind='history', item_kind=job['_item_kind'], client=job['_client'], history=f['history']))
+    _assumptions(ctx)
     ctx.extra['bound'] = f'page histories depth<={6 if ctx.thorough else 5}, items per page 0..{4 if ctx.thorough else 3}; classification: complete product ({len(cell_list())} cells)'
+
+
+def _assumptions(ctx):
+    ctx.assume('"the first repeated response field" is read as the first in the order of the fields in the message descriptor '
+               '(declaration order), also where the field numbers say otherwise')
 
 
 def replay(ctx, state):
